@@ -83,6 +83,13 @@ Theorem C08_outcome : forall ls s k c o, Pending.run Pending.init ls = Some s ->
   o = OTimeout \/ o = OErr \/ o = OOneWay \/ exists p, o = OReply p /\ p_id p = c_id c /\ p_id p <> 0 /\ p_oneway p = false.
 Proof. exact PendingProofs.outcome_cases. Qed.
 
+(* trace validation: every connection of a trace accepted by [maccepts] (what the harness asks on every run) is a good run
+   of the pending-table machine from [init] — the theorems above apply to what was observed *)
+Theorem C08_accepted_trace_components : forall n ls obs snaps lft, maccepts (n, ls, obs, snaps, lft) = true ->
+  exists ms, mrun (repeat Pending.init n) ls = Some ms /\
+    forall a s', nth_error ms a = Some s' -> exists pls, Pending.run Pending.init pls = Some s' /\ good_run Pending.init pls = true.
+Proof. exact PendingProofs.maccepts_components. Qed.
+
 (* ---- the process: one id generator, any number of threads, any number of adapters (connections) each with its own
    table; a call is registered under the id its own genRequestID call returned (Conc/C08Sys.v).  All label sequences. ---- *)
 
@@ -90,6 +97,11 @@ Proof. exact PendingProofs.outcome_cases. Qed.
 Theorem C08_sys_adapter_is_run : forall c0 nt na ls s, srun maxi (sinit c0 nt na) ls = Some s ->
   forall a ad, nth_error (ads s) a = Some ad -> exists pls, Pending.run Pending.init pls = Some ad.
 Proof. exact (C08SysProofs.sys_adapter_is_run maxi). Qed.
+
+(* and the adapters of the process evolve by steps of the product machine the recorded traces are validated against *)
+Theorem C08_sys_adapters_step : forall s l s', sstep maxi s l = Some s' ->
+  ads s' = ads s \/ exists al, mstep (ads s) al = Some (ads s').
+Proof. exact (C08SysProofs.sstep_ads_mstep maxi). Qed.
 
 (* no call is ever registered under id 0 *)
 Theorem C08_sys_ids_nonzero : forall c0 nt na ls s, srun maxi (sinit c0 nt na) ls = Some s ->
@@ -155,7 +167,9 @@ Print Assumptions C08_cleanup_quiescent.
 Print Assumptions C08_own_entry.
 Print Assumptions C08_outstanding_distinct.
 Print Assumptions C08_outcome.
+Print Assumptions C08_accepted_trace_components.
 Print Assumptions C08_sys_adapter_is_run.
+Print Assumptions C08_sys_adapters_step.
 Print Assumptions C08_sys_ids_nonzero.
 Print Assumptions C08_sys_shared_id_far.
 Print Assumptions C08_sys_outstanding_distinct.
